@@ -6,14 +6,15 @@ SEC1 point compression), so that the library's key handling is compared against 
 do not come from the library.
 
   {"ed25519": [{"seed": hex32, "pk": hex32} x 8],
-   "p384":    [{"d": hex48, "pk": hex49} x 6]}
+   "p384":    [{"d": hex48, "pk": hex49} x 7]}
 
 Ed25519 seeds: 0^32, 01^32, the official vector seed, that seed with bit 0 of byte 0 flipped,
 that seed with the top bit of byte 31 flipped, sha256("pvmc-ed-5"), sha256("pvmc-ed-6"),
 sha256("pvmc-ed-7").
 P-384 scalars: 1, n-1, the official vector scalar, and int(sha384(label)) mod (n-1) + 1 for the
-labels "pvmc-p384-3", "pvmc-p384-4", "pvmc-p384-5".  Both compression prefixes (02 and 03)
-must occur among the six public keys; if they did not, the last label would be changed
+labels "pvmc-p384-3", "pvmc-p384-4", "pvmc-p384-5", "pvmc-p384-lz-49" (the last one has a public key
+whose x coordinate begins with a zero byte).  Both compression prefixes (02 and 03)
+must occur among the public keys; if they did not, the last label would be changed
 (suffix "'" appended until they do) -- with the labels above this is NOT necessary: the prefixes
 come out as 03, 02, 02, 02, 02, 02 (d = 1 is G itself, whose y is odd, so 03 occurs; n-1 is -G).
 """
@@ -66,7 +67,10 @@ def main():
         scalars = [1, P.P384_N - 1, OFFICIAL_P384_D,
                    p384_scalar_from_label(b"pvmc-p384-3"),
                    p384_scalar_from_label(b"pvmc-p384-4"),
-                   p384_scalar_from_label(last_label)]
+                   p384_scalar_from_label(last_label),
+                   # a key whose x coordinate starts with a zero byte (found by trying the labels
+                   # pvmc-p384-lz-0, -1, ...: number 49 is the first): fixed-width encodings must keep it
+                   p384_scalar_from_label(b"pvmc-p384-lz-49")]
         p384 = [{"d": "%096x" % d, "pk": P.p384_public_compressed(d).hex()} for d in scalars]
         prefixes = {k["pk"][:2] for k in p384}
         if prefixes == {"02", "03"}:
@@ -74,7 +78,8 @@ def main():
         last_label += b"'"
     assert last_label == b"pvmc-p384-5", "label had to be changed: update the docstring"
     assert p384[2]["pk"] == OFFICIAL_P384_PK, "official P-384 public key not reproduced"
-    assert len({k["pk"] for k in p384}) == 6
+    assert len({k["pk"] for k in p384}) == 7
+    assert p384[6]["pk"][2:4] == "00", "the leading-zero key lost its leading zero"
     # -G has the same x as G and the opposite parity
     assert p384[0]["pk"][2:] == p384[1]["pk"][2:] and p384[0]["pk"][:2] != p384[1]["pk"][:2]
     for k in p384:
